@@ -1,5 +1,6 @@
 import GeosModel.Proofs.Fix.Dispatch
 import GeosModel.Model.Fix.Spec
+import GeosModel.Model.Fix.Cxx
 /-!
 # C17 — MakeValid always returns a valid geometry and preserves valid input
 
@@ -14,8 +15,12 @@ overlay) are not modelled.  What is proved here is about the CORE model `Model/F
 * `fix_no_collapse`: without keep-collapsed the result has exactly the input's dimension class (a collapse becomes an
   EMPTY of the input's kind, never a lower-dimensional geometry);
 * `collapse_kept_iff`: a collapsed line / polygon comes back lower-dimensional exactly when requested;
-* `fix_collection_ignores_keep`: inside a GeometryCollection keep-collapsed is never honoured (the code calls the static
-  `fix`) — a documented quirk of the model, observed on the implementation too;
+* `fix_collection_keeps`, `fix_nest`, `collapse_in_collection_kept_iff`: the elements of a GeometryCollection are fixed
+  with the caller's keep-collapsed setting, at any nesting depth (true of the code since the /repo commit "fix:
+  GeometryFixer::fixCollection must hand keepCollapsed down to the elements": before, the static `fix` was called and
+  collapses inside collections were never kept — finding F5, found by an independent review, confirmed and now guarded
+  by this check; `fixDropping_false`, `fixDropping_atomic`, `collection_dropped_keep_collapsed` describe the old behaviour);
+* `buildRoute_isSome_iff`: which inputs the linework method's `build` has a routine for;
 * `fix_empty_atomic`, `fix_empty_polygon_stable`: EMPTY atomic inputs come back as the EMPTY of their own type with keep on
   or off (for the polygon only since /repo commit 1fc4024a4: before, keep-collapsed turned `POLYGON EMPTY` into
   `LINESTRING EMPTY`, which made the structure method non-idempotent — finding F4, found by this check, fixed).
@@ -73,13 +78,80 @@ theorem fix_dispatch_total (keep : Bool) (s : Shape) (h : UnionAreal s) : (fix k
     simp only [fix, Shape.ty, allowed]
     split_ifs <;> simp [Res.ty]
 
-/-- a GeometryCollection comes back as a GeometryCollection of the element results, each fixed with keep-collapsed
-OFF whatever the caller asked for -/
-theorem fix_collection_ignores_keep (keep : Bool) (gs : List Shape) (h : gs ≠ []) :
-    fix keep (.collection gs) = .coll (gs.map (fix false)) := by
+/-- a GeometryCollection comes back as a GeometryCollection of the element results, each fixed with the caller's
+keep-collapsed setting -/
+theorem fix_collection_keeps (keep : Bool) (gs : List Shape) (h : gs ≠ []) :
+    fix keep (.collection gs) = .coll (gs.map (fix keep)) := by
   simp only [fix]
   have : gs.isEmpty = false := by cases gs <;> simp_all
   simp [this, fixList_eq_map]
+
+/-- `n` GeometryCollections around a shape / a result -/
+def nest : Nat → Shape → Shape
+  | 0, s => s
+  | n + 1, s => .collection [nest n s]
+def nestRes : Nat → Res → Res
+  | 0, r => r
+  | n + 1, r => .coll [nestRes n r]
+
+/-- the fixer commutes with wrapping in collections: at any nesting depth an element is fixed exactly as on its own, with
+the setting the caller asked for -/
+theorem fix_nest (keep : Bool) (n : Nat) (s : Shape) : fix keep (nest n s) = nestRes n (fix keep s) := by
+  induction n with
+  | zero => rfl
+  | succ k ih => simp [nest, nestRes, fix_collection_keeps, ih]
+
+/-- **Collapses inside collections are kept exactly when requested, at any nesting depth**: a collapsed line (one point
+left after cleaning) inside `n` nested GeometryCollections comes back as a Point when keep-collapsed is on, and as the
+empty LineString when it is off; likewise a polygon whose shell has no area comes back as its collapsed line / the empty
+polygon. -/
+theorem collapse_in_collection_kept_iff (keep : Bool) (n : Nat) :
+    fix keep (nest n (.line false 1)) = nestRes n (if keep then .atom .point false else .atom .lineString true)
+    ∧ fix keep (nest n (.polygon false .empty 3 0 .empty))
+        = nestRes n (if keep then .atom .lineString false else .atom .polygon true) := by
+  constructor <;> rw [fix_nest] <;> cases keep <;> rfl
+
+example : fix true (.collection [.collection [.line false 1], .line false 3])
+    = .coll [.coll [.atom .point false], .atom .lineString false] := rfl
+
+/-! ## the linework method's dispatch (`MakeValid::build`; regenerated and bridged in `Props/C17GenMV.lean`) -/
+
+/-- `build` has a routine for an input exactly when the input is valid or is not a Point, MultiPoint or LinearRing: on an
+invalid geometry of one of these three types the linework method throws instead of returning a geometry — the property's
+"every structurally well-formed input" is false of it (known finding; the structure method has no such gap,
+`C17Gen.gen_getResult_total`) -/
+theorem buildRoute_isSome_iff (valid : Bool) (t : Ty) :
+    (buildRoute valid t).isSome ↔ (valid = true ∨ (t ≠ .point ∧ t ≠ .multiPoint ∧ t ≠ .linearRing)) := by
+  cases valid <;> cases t <;> simp [buildRoute]
+
+/-- a valid input is cloned whatever its type (so "a valid input comes back topologically equal" cannot fail in `build` itself) -/
+theorem buildRoute_valid (t : Ty) : buildRoute true t = some .clone := rfl
+
+example : buildRoute false .linearRing = none ∧ buildRoute false .polygon = some .poly := ⟨rfl, rfl⟩
+
+/-! ## keep-collapsed inside collections: the behaviour before the fix (regression reference)
+
+`fixDropping` is what GEOS computed before `fixCollection` handed the setting down (finding F5).  It agrees with `fix`
+whenever keep-collapsed is off and on every input that is not a GeometryCollection, and differs on
+`GEOMETRYCOLLECTION(LINESTRING(3 4, 3 4))` with keep-collapsed on — the witness is replayed on the implementation on
+every run (driver clause `keep-collapsed`, replays/known-C17-collection-drops-keepcollapsed.json must come out `ok`). -/
+mutual
+  theorem fixDropping_false : ∀ s : Shape, fixDropping false s = fix false s
+    | .collection gs => by simp only [fixDropping, fix, fixDroppingList_false gs]
+    | .point .. | .line .. | .ring .. | .polygon .. | .multiPoint _ | .multiLine _ | .multiPolygon .. => by simp only [fixDropping]
+  theorem fixDroppingList_false : ∀ gs : List Shape, fixDroppingList gs = fixList false gs
+    | [] => by simp only [fixDroppingList, fixList]
+    | g :: gs => by simp only [fixDroppingList, fixList, fixDropping_false g, fixDroppingList_false gs]
+end
+
+theorem fixDropping_atomic (keep : Bool) (s : Shape) (h : s.ty ≠ .collection) : fixDropping keep s = fix keep s := by
+  cases s <;> first | (exact absurd rfl h) | rfl | simp only [fixDropping]
+
+/-- the old behaviour dropped a collapsed line inside a collection although keep-collapsed was on; `fix` keeps it -/
+theorem collection_dropped_keep_collapsed :
+    fixDropping true (.collection [.line false 1]) = .coll [.atom .lineString true]
+    ∧ fix true (.collection [.line false 1]) = .coll [.atom .point false]
+    ∧ fix true (.line false 1) = .atom .point false := ⟨rfl, rfl, rfl⟩
 
 /-- the table never raises the dimension -/
 theorem allowed_dim_le (keep : Bool) (ty t : Ty) (hc : ty ≠ .collection) (h : t ∈ allowed keep ty) : t.dim ≤ ty.dim := by
@@ -132,7 +204,7 @@ theorem fix_empty_polygon_stable (keep : Bool) : fix keep (.polygon true .empty 
 /-! non-vacuity -/
 example : fix true (.multiLine [.line false 1, .line false 3]) = .coll [.atom .point false, .atom .lineString false] := rfl
 example : fix false (.multiLine [.line false 1, .line false 3]) = .atom .lineString false := rfl
-example : fix true (.collection [.line false 1]) = .coll [.atom .lineString true] := rfl
+example : fix true (.collection [.line false 1]) = .coll [.atom .point false] := rfl
 example : fix false (.multiPolygon [.polygon false .polygon 5 0 .polygon, .polygon false .empty 3 0 .empty] .polygon) = .atom .polygon false := rfl
 
 /-! ## internal consistency of the contract's predicates -/
